@@ -162,6 +162,55 @@ def validate_trace(module, trace_path, workers=4, timeout=1800, expect_states=No
     return rej, r
 
 
+def validate_episodes(c, module, trace, describe, canary, label, workers=8, timeout=3000, env=None):
+    """Validate a recorded trace made of episodes (k == 0 starts one) with the monitor spec `module`.
+    canary(ep) -> corrupted copy of a prefix of ep (list of events) or None; the corrupted LAST event must be rejected.
+    describe(event, first_event_of_episode) -> descriptor dict for known-findings matching / reporting.
+    Returns (records, episodes, tlc result, rejected indices)."""
+    recs = read_ndjson(trace)
+    eps = episodes(recs)
+    cans = []
+    full = list(recs)
+    pos0 = 0
+    for ep in eps:
+        if len(cans) >= 3:
+            break
+        cn = canary(ep)
+        if cn:
+            cans.append((pos0, len(cn), len(full)))
+            full += cn
+        pos0 += len(ep)
+    write_ndjson(trace, full)
+    rej, r = validate_trace(module, trace, workers=workers, timeout=timeout, env=env)
+    allidx = sorted(l for l, _ in rej)
+    idx = [l for l in allidx if l <= len(recs)]
+    conclusive = 0
+    for (o, ln, cstart) in cans:
+        if any(o < l <= o + ln for l in idx):
+            continue          # the original prefix itself is rejected: this canary says nothing
+        conclusive += 1
+        if (cstart + ln) not in allidx:
+            raise ToolError("canary episode was not rejected at its corrupted event: %s trace validation is not binding" % module)
+    c.cov["canaries_conclusive"] = c.cov.get("canaries_conclusive", 0) + conclusive
+    # vacuity guard: every event of every episode must have been consumed up to its first rejection
+    starts = [i for i, e in enumerate(full) if e["k"] == 0] + [len(full)]
+    consumed = 0
+    for a_, b_ in zip(starts, starts[1:]):
+        bad = [l for l in allidx if a_ < l <= b_]
+        consumed += (min(bad) - a_) if bad else (b_ - a_)
+    if r["distinct"] != consumed:
+        raise ToolError("vacuity guard: TLC consumed %d events of %s, expected %d" % (r["distinct"], module, consumed))
+    for l in idx:
+        e = full[l - 1]
+        ep_start = max(s_ for s_ in starts if s_ < l)
+        first = full[ep_start]
+        d = describe(e, first)
+        txt = "%s: event %d of episode %s rejected by %s: %s" % (label, e["k"], shorten({k: v for k, v in first.items() if k != "st"}, 8), module,
+                                                                 shorten({k: v for k, v in e.items() if k != "st"}, 12))
+        c.violation(d, full[ep_start:l], txt)
+    return recs, eps, r, idx
+
+
 def read_ndjson(path):
     with open(path) as f:
         return [json.loads(ln) for ln in f if ln.strip()]
